@@ -27,11 +27,11 @@ def run_case(case):
     if p.result:
         return p.result
     counters = p.counters
-    a, ea, sa = D.exhaust(p.spec, "IterateSATGen", CAP, 60)
+    a, ea, sa = D.exhaust(p.spec, "IterateSATGen", CAP, 40)
     if sa != "ok" or ea:
         counters["sat_" + (sa if sa != "ok" else "raised")] = 1
         return {"nontrivial": False, "violations": [], "counters": counters}
-    b, eb, sb = D.exhaust(p.spec, "RandomGen", CAP, 30)
+    b, eb, sb = D.exhaust(p.spec, "RandomGen", CAP, 15)
     if sb != "ok" or eb:
         counters["random_" + (sb if sb != "ok" else "raised")] = 1
         return {"nontrivial": False, "violations": [], "counters": counters}
